@@ -59,7 +59,13 @@ Streams:
              ValidationError / ValueError / bare Exception (or none at all);
              I = a traceback of any other exception type.  Compared with the
              model's class (= the library's class, the case having passed the
-             correspondence); I where the model says Diag = VIOLATION.
+             correspondence); I where the model says Diag = VIOLATION; D where the
+             model accepts = VIOLATION (an accepted spec that cannot be staged).
+  reserved   accepted-by-design documents with OUTPUT_PATH (and SPECROOT,
+             WORKSPACE, LAUNCHER) in every admissible place and form: first /
+             later variable, value mentioning $(OTHER) (classified as a label),
+             number, under env.labels, both, a path dependency, absent; through
+             the library AND through the command line with and without -o.
   enums      every priority string of the schema (and others) through the real
              StepPriority.from_str and FluxInterface_0490.get_flux_urgency;
              numbers n/d in [0,1] through the numeric branch
@@ -733,6 +739,45 @@ def tiny_doc():
     ])
 
 
+def reserved_docs():
+    """accepted-by-design documents in which a reserved / common name
+    (OUTPUT_PATH above all: run_study removes and re-adds it) sits in every
+    admissible place and form of the environment"""
+    def doc(env):
+        d = Obj([("description", Obj([("name", "n"), ("description", "d")]))])
+        if env is not None:
+            d.kv.append(("env", env))
+        d.kv.append(("study", [
+            Obj([("name", "a"), ("description", "da"), ("run", Obj([("cmd", "echo $(OUTPUT_PATH) $(V)")]))]),
+            Obj([("name", "b"), ("description", "db"), ("run", Obj([("cmd", "echo b"), ("depends", ["a"])]))])]))
+        return d
+
+    def places(n):
+        V = ("V", "x")
+        return [
+            ("var-first", Obj([("variables", Obj([(n, "./out")]))])),
+            ("var-first-then-other", Obj([("variables", Obj([(n, "./out"), V]))])),
+            ("var-later", Obj([("variables", Obj([V, (n, "./out")]))])),
+            ("var-later-mentions-other", Obj([("variables", Obj([V, (n, "$(V)/out")]))])),
+            ("var-first-mentions-later", Obj([("variables", Obj([(n, "$(V)/out"), V]))])),
+            ("var-number", Obj([("variables", Obj([V, (n, 3)]))])),
+            ("label", Obj([("variables", Obj([V])), ("labels", Obj([(n, "./out")]))])),
+            ("label-mentions-var", Obj([("variables", Obj([V])), ("labels", Obj([(n, "$(V)/out")]))])),
+            ("label-only", Obj([("labels", Obj([(n, "out")]))])),
+            ("var-and-label", Obj([("variables", Obj([(n, "./out")])), ("labels", Obj([(n, "./o2")]))])),
+            ("path-dependency", Obj([("variables", Obj([V])),
+                                     ("dependencies", Obj([("paths", [Obj([("name", n), ("path", ".")])])]))])),
+        ]
+    out = [("reserved:none:no-env", doc(None)), ("reserved:none:empty-env", doc(Obj()))]
+    for n, keep in (("OUTPUT_PATH", None), ("SPECROOT", ("var-first", "var-later-mentions-other", "label")),
+                    ("WORKSPACE", ("var-first", "var-later-mentions-other", "label")),
+                    ("LAUNCHER", ("var-first", "label"))):
+        for pl, env in places(n):
+            if keep is None or pl in keep:
+                out.append(("reserved:%s:%s" % (n, pl), doc(env)))
+    return out
+
+
 def pool():
     return [None, True, False, 0, 1, -1, 2, 40, Flt(5, 1), Flt(20, 1), Flt(-15, 1),
             "", "x", "a", "$(X)", "$(X)\n", "$()", "a b", "--", "€", "high", "SPECROOT", "_source",
@@ -1333,8 +1378,9 @@ def cli_tracebacks(text):
     return names
 
 
-def cli_run(k, text):
-    """-> (class, detail): the real `maestro run` on the YAML text"""
+def cli_run(k, text, use_o=True):
+    """-> (class, detail): the real `maestro run` on the YAML text (with -o OUT,
+    or without: the study directory then comes from OUTPUT_PATH / the cwd)"""
     import subprocess
     d = os.path.join(CLI_DIR, "r%d" % k)
     shutil.rmtree(d, ignore_errors=True)
@@ -1349,14 +1395,15 @@ def cli_run(k, text):
     for v in ("E2E_SCRIPTED", "E2E_MARK_LOG", "E2E_POLL_SLEEP", "E2E_STUDY_DIR", "E2E_SNAP_DIR"):
         env.pop(v, None)
     try:
-        p = subprocess.run([sys.executable, LAUNCHER, "maestro", "run", "-y", "-fg", "--dry", "-o", out, spec],
+        p = subprocess.run([sys.executable, LAUNCHER, "maestro", "run", "-y", "-fg", "--dry"] +
+                           (["-o", out] if use_o else []) + [spec],
                            cwd=d, env=env, stdout=subprocess.PIPE, stderr=subprocess.PIPE, timeout=300,
                            text=True, errors="replace")
         rc, so, se = p.returncode, p.stdout, p.stderr
     except subprocess.TimeoutExpired:
         shutil.rmtree(d, ignore_errors=True)
         return "T", "timeout"
-    staged = os.path.isdir(out) and any(fn.endswith(".pkl") for fn in os.listdir(out))
+    staged = any(fn.endswith(".pkl") for _, _, fns in os.walk(d) for fn in fns)
     tbs = cli_tracebacks(se + "\n" + so)
     foreign = [n for n in tbs if n not in CLI_CLEAN]
     tail = " | ".join([l for l in se.strip().split("\n") if l.strip()][-2:])[-300:]
@@ -1407,23 +1454,32 @@ def cli_stream(ck, impl, recs, bad, corpus):
             if b and n_rej > 0:
                 jobs.append(b.pop())
                 n_rej -= 1
-    work = [(recs[i]["tag"], to_yaml(recs[i]["doc"]), recs[i]["obs"][0], i) for i in jobs]
+    no_o = {t for t, d, j in corpus if d is not None and j.get("use_o") is False}
+    work = [(recs[i]["tag"], to_yaml(recs[i]["doc"]), recs[i]["obs"][0], i, recs[i]["tag"] not in no_o) for i in jobs]
+    # reserved / common names in every admissible place, with and without -o
+    n_res = 0
+    for i in elig:
+        if recs[i]["tag"].startswith("reserved:") and i not in chosen:
+            for use_o in (True, False):
+                work.append((recs[i]["tag"] + (":-o" if use_o else ":no-o"), to_yaml(recs[i]["doc"]),
+                             recs[i]["obs"][0], i, use_o))
+                n_res += 1
     # raw texts (documents outside the model's type): never an internal error
     for t, d, j in corpus:
         if d is None and "yaml_text" in j:
-            work.append((t, j["yaml_text"], None, None))
+            work.append((t, j["yaml_text"], None, None, True))
     from concurrent.futures import ThreadPoolExecutor
     shutil.rmtree(CLI_DIR, ignore_errors=True)
     os.makedirs(CLI_DIR, exist_ok=True)
     with ThreadPoolExecutor(max_workers=common.NCPU) as ex:
-        res = list(ex.map(lambda kw: cli_run(kw[0], kw[1][1]), enumerate(work)))
+        res = list(ex.map(lambda kw: cli_run(kw[0], kw[1][1], kw[1][4]), enumerate(work)))
     shutil.rmtree(CLI_DIR, ignore_errors=True)
     hist = collections.Counter()
-    for (tag, text, want, i), (got, detail) in zip(work, res):
-        ck.count(("cli", text), nontrivial=True)
+    for (tag, text, want, i, use_o), (got, detail) in zip(work, res):
+        ck.count(("cli", text, use_o), nontrivial=True)
         hist["%s->%s" % (want or "raw", got)] += 1
         cj = {"property": PID, "tag": "cli:" + tag, "yaml": text, "cli": {"class": got, "detail": detail},
-              "library_class": want}
+              "library_class": want, "use_o": use_o}
         if i is not None:
             cj["doc"] = to_json(recs[i]["doc"])
         else:
@@ -1434,9 +1490,13 @@ def cli_stream(ck, impl, recs, bad, corpus):
                          cj)
         elif got == "T":
             ck.mismatch("cli:%s: `maestro run` timed out" % tag, cj, detail)
+        elif want == "A" and got == "D":
+            ck.violation("cli:%s: the model and the library accept this specification but `maestro run%s` "
+                         "rejects it and stages nothing (%s)" % (tag, " -o OUT" if use_o else "", detail), cj)
         elif want is not None and got != want:
             ck.mismatch("cli:%s: command line %s (%s) but library and model %s" % (tag, got, detail, want), cj, detail)
     ck.cov["cli_runs"] = len(work)
+    ck.cov["cli_reserved_name_runs"] = n_res
     ck.cov["cli_outcomes_expected_to_observed"] = dict(sorted(hist.items()))
     ck.cov["cli_rejection_kinds_sampled"] = len(buckets)
 
@@ -1460,6 +1520,7 @@ def build_cases(ck, impl, rng, tier):
     for d in valids:
         cases.append(("valid", d))
     cases += exotic_docs(rng, prios)
+    cases += reserved_docs()
     cases += exhaustive_single(tiny_doc(), "exh-tiny")
     if not quick:
         cases += exhaustive_single(small_full_doc(), "exh-full")
@@ -1711,7 +1772,7 @@ def replay(ck, path):
     cli_rc = 0
     if str(cj.get("tag", "")).startswith("cli:") and (cj.get("yaml") or cj.get("yaml_text")):
         os.makedirs(CLI_DIR, exist_ok=True)
-        got, detail = cli_run(0, cj.get("yaml") or cj.get("yaml_text"))
+        got, detail = cli_run(0, cj.get("yaml") or cj.get("yaml_text"), cj.get("use_o", True))
         print("command line  :", got, detail)
         if got == "I" or (cj.get("library_class") and got != cj["library_class"]):
             cli_rc = 1
